@@ -59,7 +59,7 @@ the `RuntimeError("incompatible tokenizer")` branch is reachable. -/
 theorem classify_total' (tb : Table) (o : Oracles) (m : Match) (hs : Specials tb)
     (hm : FromPattern m = true) (hsp : isSpace m = false) :
     Cls.Good tb (classify tb o m) ∨ Cls.Syntax tb (classify tb o m) := by
-  obtain ⟨text, lit, sym, name, unk⟩ := m
+  obtain ⟨text, lit, sym, name, unk, stop⟩ := m
   cases lit <;> cases sym <;> cases name <;> cases unk <;>
     simp only [FromPattern, Bool.false_eq_true, Bool.and_eq_true, beq_iff_eq, Bool.not_eq_true'] at hm
   · -- white space only
